@@ -18,7 +18,7 @@ RULE = (
     "(raw/comment/doc/if have four); text classes: empty, spaces, newlines, tabs, padded words, markup-like fragments that cannot open "
     "markup. One markup: exhaustive; two markups: exhaustive over kinds x flags with sampled texts (thorough: all); three: sampled. "
     "Non-trivial = at least one hyphen present or a raw/comment/doc body, distinct by source."
-    " Rounds 5-6 added enumerated families: unclosed comment openers as text; markup tokens of 0.5-40 KB of every kind."
+    " Rounds 5-6 added enumerated families: unclosed comment openers as text; markup tokens of 0.5-40 KB of every kind; round 7: literal text / raw bodies on the executed path of 1-3 nested control-flow wrappers (17 wrappers incl. for-else with empty, blank and text bodies)."
 )
 REQUIRED = [
     ("liquid/lex.py", "_tokenize_template"),
@@ -186,6 +186,8 @@ def minimise(case: dict[str, Any]):
 
 
 def judge(ctx: core.Ctx, case: dict[str, Any]) -> None:
+    if "nest" in case:
+        return judge_nest(ctx, case)
     segs = case["segs"]
     src = source_of(segs)
     exps = expected(segs)
@@ -266,8 +268,89 @@ def unclosed_opener_cases():
                 yield {"segs": [" p ", m, " q ", dict(m), text], "tc": tc}
 
 
+# ---- literal text inside nested control flow ------------------------------------------------------------------------------------------------
+# Each wrapper puts its content X on the one path that executes; every other branch is empty or holds text that must not appear.  X always
+# has a non-whitespace character, so no block on the executed path is "blank" (the documented suppression applies to whitespace-only blocks).
+WRAPPERS: dict[str, tuple[str, str, str, str]] = {
+    # name: (before X, after X, expected before, expected after)
+    "if": ("{% if true %}", "{% endif %}", "", ""),
+    "if-else": ("{% if false %}NO{% else %}", "{% endif %}", "", ""),
+    "elsif": ("{% if false %}NO{% elsif true %}", "{% else %}NO{% endif %}", "", ""),
+    "unless": ("{% unless false %}", "{% endunless %}", "", ""),
+    "unless-else": ("{% unless true %}{% else %}", "{% endunless %}", "", ""),
+    "case-when": ("{% case 1 %}{% when 2 %}NO{% when 1 %}", "{% endcase %}", "", ""),
+    "case-else": ("{% case 1 %}{% when 2 %}{% else %}", "{% endcase %}", "", ""),
+    "for": ("{% for i in (1..1) %}", "{% endfor %}", "", ""),
+    "for-else-empty-body": ("{% for i in nosuch %}{% else %}", "{% endfor %}", "", ""),
+    "for-else-blank-body": ("{% for i in nosuch %} {% assign q = i %}\n{% else %}", "{% endfor %}", "", ""),
+    "for-else-text-body": ("{% for i in nosuch %}NO{% else %}", "{% endfor %}", "", ""),
+    "for-else-range": ("{% for i in (1..0) %}{% else %}", "{% endfor %}", "", ""),
+    "tablerow": ("{% tablerow i in (1..1) %}", "{% endtablerow %}", '<tr class="row1">\n<td class="col1">', "</td></tr>\n"),
+    "capture": ("{% capture cap %}", "{% endcapture %}{{ cap }}", "", ""),
+    "ifchanged": ("{% ifchanged %}", "{% endifchanged %}", "", ""),
+    "comment-sibling": ("{% if true %}{% comment %}NO{% endcomment %}", "{% endif %}", "", ""),
+    "assign-sibling": ("{% if true %}{% assign z = 1 %}", "{% assign y = 2 %}{% endif %}", "", ""),
+}
+NEST_X = [("no items", "no items"), (" padded text \n", " padded text \n"), ("{% raw %} {{ r }} {% if %}{% endraw %}", " {{ r }} {% if %}"), ("{% raw %}w{% endraw %}", "w"), ("-", "-"), ("{ %}", "{ %}")]
+
+
+def nest_source(names: list[str], xi: int) -> tuple[str, str]:
+    src, exp = NEST_X[xi]
+    for n in reversed(names):
+        b, a, eb, ea = WRAPPERS[n]
+        src, exp = b + src + a, eb + exp + ea
+    return src, exp
+
+
+def judge_nest(ctx: core.Ctx, case: dict[str, Any]) -> None:
+    src, exp = nest_source(case["nest"], case["x"])
+    src, exp = "A " + src + " Z", "A " + exp + " Z"
+    o = drv.parse_and_render(env(False), src, {}, use_async=case.get("async", False))
+    ctx.count("nested_text_renders")
+    if not o.ok:
+        ctx.violation(f"nest:raises-{o.err_class}", f"{src!r} raised {o.err_class}: {drv.safe_str(o.exc)[:100]}")
+        return
+    if o.value != exp:
+        # smallest failing suffix of the nest
+        names = list(case["nest"])
+        while len(names) > 1:
+            s2, e2 = nest_source(names[1:], case["x"])
+            o2 = drv.parse_and_render(env(False), s2, {})
+            if o2.ok and o2.value == e2:
+                break
+            names = names[1:]
+        s2, e2 = nest_source(names, case["x"])
+        lost = "lost" if len(o.value) < len(exp) else "changed"
+        ctx.violation(f"nest:text-{lost}:{'>'.join(names)}", f"{s2!r}: the text on the executed path must be output verbatim ({e2!r}); {src!r} rendered {o.value!r}", {"source": src, "got": o.value, "expected": exp})
+        return
+    ctx.ok(("nest", src, case.get("async", False)), nontrivial=True)
+
+
+def nest_cases():
+    # ifchanged blocks share one remembered value per render, so an ifchanged directly around another sees "nothing changed": at most one per nest
+    for c in _nest_cases():
+        if c["nest"].count("ifchanged") <= 1:
+            yield c
+
+
+def _nest_cases():
+    names = list(WRAPPERS)
+    for xi in range(len(NEST_X)):
+        for a in names:
+            yield {"nest": [a], "x": xi}
+            yield {"nest": [a], "x": xi, "async": True}
+    for a in names:
+        for b in names:
+            for xi in (0, 2):
+                yield {"nest": [a, b], "x": xi, "async": (len(a) + len(b)) % 2 == 1}
+    for a in names:
+        for b in names:
+            for c in ("for-else-empty-body", "for-else-blank-body", "case-else", "if", "capture", "tablerow"):
+                yield {"nest": [a, b, c], "x": 0}
+
+
 def cases(ctx: core.Ctx):
-    for gi, c in enumerate(itertools.chain(unclosed_opener_cases(), long_markup_cases())):
+    for gi, c in enumerate(itertools.chain(nest_cases(), unclosed_opener_cases(), long_markup_cases())):
         if gi % ctx.nshards == ctx.shard:
             yield c
     rng = ctx.rng("cases")
